@@ -839,9 +839,20 @@ class Manager:
                 self.unregisterTask((event, task, parent))
                 if parent:
                     value = parent.throw(value.extract())
-                    if value is not None:
+                    if isinstance(value, GeneratorType):
+                        # The handler caught the exception and went on to
+                        # call/wait again: same as in the CallValue branch.
+                        task_state = next(value)
+                        task_state.task_event = event
+                        task_state.task = value
+                        task_state.parent = parent
+                    elif value is not None:
                         value_generator = (val for val in (value,))
                         self.registerTask((event, value_generator, parent))
+                    else:
+                        # It yielded None: it is an ordinary task again.
+                        event.waitingHandlers -= 1
+                        self.registerTask((event, parent, None))
                 else:
                     raise value.extract()
             elif isinstance(value, Sleep):
